@@ -234,6 +234,202 @@ slip_op(int argc, char **argv)
     }
 }
 
+/* ---- scripted drivers for C17 ----------------------------------------- */
+
+enum { ST_XFER, ST_ZERO, ST_EINTR, ST_EAGAIN, ST_HARD };
+struct step { int kind; size_t k; int err; };
+struct script { struct step s[64]; size_t n, idx, calls; };
+
+static bool
+parse_script(const char *txt, struct script *sc)
+{
+    memset(sc, 0, sizeof *sc);
+    if (strcmp(txt, "-") == 0) return true;
+    char *dup = strdup(txt), *save = NULL;
+    for (char *t = strtok_r(dup, ",", &save); t; t = strtok_r(NULL, ",", &save)) {
+        struct step *st = &sc->s[sc->n++];
+        if (sc->n > 64) { free(dup); return false; }
+        if (strcmp(t, "z") == 0) st->kind = ST_ZERO;
+        else if (strcmp(t, "i") == 0) st->kind = ST_EINTR;
+        else if (strcmp(t, "a") == 0) st->kind = ST_EAGAIN;
+        else if (t[0] == 'k') { st->kind = ST_XFER; st->k = strtoull(t + 1, NULL, 10); }
+        else if (t[0] == 'h' && t[1] == ':') { st->kind = ST_HARD; st->err = errbyname(t + 2); if (!st->err) { free(dup); return false; } }
+        else { free(dup); return false; }
+    }
+    free(dup);
+    return true;
+}
+
+struct ssrc { struct script sc; const unsigned char *stream; size_t len, pos; };
+struct ssnk { struct script sc; unsigned char *got; size_t cap, n; };
+
+/* next step of a script: returns <0 error / 0 zero / limit (SIZE_MAX when the script is used up) */
+static long long
+script_next(struct script *sc, size_t *limit)
+{
+    sc->calls++;
+    *limit = (size_t)-1;
+    if (sc->idx >= sc->n) return 1;
+    struct step *st = &sc->s[sc->idx++];
+    switch (st->kind) {
+    case ST_ZERO: return 0;
+    case ST_EINTR: return -EINTR;
+    case ST_EAGAIN: return -EAGAIN;
+    case ST_HARD: return -st->err;
+    default: *limit = st->k; return 1;
+    }
+}
+
+static ssize_t
+ssrc_chunk(void *drv, void *buf, size_t n)
+{
+    struct ssrc *s = drv;
+    size_t limit;
+    long long r = script_next(&s->sc, &limit);
+    if (r <= 0) return (ssize_t)r;
+    if (s->pos >= s->len) return -ENODATA;
+    size_t m = n < limit ? n : limit;
+    if (m > s->len - s->pos) m = s->len - s->pos;
+    memcpy(buf, s->stream + s->pos, m);
+    s->pos += m;
+    return (ssize_t)m;
+}
+
+static int
+ssrc_octet(void *drv, void *buf)
+{
+    return (int)ssrc_chunk(drv, buf, 1);
+}
+
+static ssize_t
+ssnk_chunk(void *drv, const void *buf, size_t n)
+{
+    struct ssnk *s = drv;
+    size_t limit;
+    long long r = script_next(&s->sc, &limit);
+    if (r <= 0) return (ssize_t)r;
+    size_t m = n < limit ? n : limit;
+    if (s->n + m > s->cap) { s->cap = 2 * (s->n + m) + 16; s->got = realloc(s->got, s->cap); }
+    memcpy(s->got + s->n, buf, m);
+    s->n += m;
+    return (ssize_t)m;
+}
+
+static int
+ssnk_octet(void *drv, unsigned char c)
+{
+    return (int)ssnk_chunk(drv, &c, 1);
+}
+
+static void
+mk_source(Source *src, const char *kind, struct ssrc *d)
+{
+    if (kind[0] == 'o') octet_source_init(src, ssrc_octet, d); else chunk_source_init(src, ssrc_chunk, d);
+}
+
+static void
+mk_sink(Sink *snk, const char *kind, struct ssnk *d)
+{
+    if (kind[0] == 'o') octet_sink_init(snk, ssnk_octet, d); else chunk_sink_init(snk, ssnk_chunk, d);
+}
+
+static bool
+is_prefix(const unsigned char *a, size_t an, const unsigned char *b, size_t bn)
+{
+    return an <= bn && (an == 0 || memcmp(a, b, an) == 0);
+}
+
+static void
+ep_op(int argc, char **argv)
+{
+    const char *op = argv[0];
+    if ((strcmp(op, "ep.get") == 0 || strcmp(op, "ep.getmost") == 0) && argc == 5) {
+        struct ssrc d = { .pos = 0 };
+        size_t len; unsigned char *stream = parse_hex(argv[2], &len);
+        if (!stream || !parse_script(argv[3], &d.sc)) { printf("bad-op"); return; }
+        d.stream = stream; d.len = len;
+        size_t n = parse_u64(argv[4]);
+        unsigned char *buf = malloc(n ? n : 1);          /* exact size */
+        memset(buf, 0xee, n ? n : 1);
+        Source src; mk_source(&src, argv[1], &d);
+        ssize_t rc = op[6] == 'm' ? source_get_chunk_atmost(&src, buf, n) : source_get_chunk(&src, buf, n);
+        print_rc_strict(rc);
+        printf(" data="); print_hex(buf, rc > 0 ? (size_t)rc : 0);
+        printf(" consumed=%zu ## ", d.pos);
+        print_rc_strict(rc);
+        printf(" data="); print_hex(buf, rc > 0 ? (size_t)rc : 0);
+        free(buf); free(stream);
+    } else if ((strcmp(op, "ep.put") == 0 || strcmp(op, "ep.putmost") == 0) && argc == 4) {
+        struct ssnk d = { .n = 0 };
+        size_t n; unsigned char *data = parse_hex(argv[3], &n);      /* exact size */
+        if (!data || !parse_script(argv[2], &d.sc)) { printf("bad-op"); return; }
+        Sink snk; mk_sink(&snk, argv[1], &d);
+        ssize_t rc = op[6] == 'm' ? sink_put_chunk_atmost(&snk, data, n) : sink_put_chunk(&snk, data, n);
+        for (int view = 0; view < 2; view++) {
+            print_rc_strict(rc);
+            if (rc >= 0) { printf(" got="); print_hex(view ? data : d.got, view ? (size_t)rc : d.n); }
+            else printf(" prefix=%s", is_prefix(d.got, d.n, data, n) ? "true" : "false");
+            if (!view) { printf(" gotraw="); print_hex(d.got, d.n); printf(" ## "); }
+        }
+        /* on success the sink must hold exactly the first rc octets */
+        free(d.got); free(data);
+    } else if (strcmp(op, "ep.big") == 0 && argc == 3) {
+        unsigned char small[2] = { 1, 2 };
+        size_t n = (size_t)1 << 63;
+        if (strcmp(argv[1], "get") == 0) {
+            struct ssrc d = { .stream = small, .len = 2 };
+            Source src; mk_source(&src, argv[2], &d);
+            unsigned char buf[2];
+            ssize_t rc = source_get_chunk(&src, buf, n);
+            print_rc_strict(rc); printf(" calls=%zu", d.sc.calls);
+        } else {
+            struct ssnk d = { .n = 0 };
+            Sink snk; mk_sink(&snk, argv[2], &d);
+            ssize_t rc = sink_put_chunk(&snk, small, n);
+            print_rc_strict(rc); printf(" calls=%zu", d.sc.calls);
+            free(d.got);
+        }
+    } else if (strcmp(op, "sts") == 0 && argc == 11) {
+        struct ssrc sd = { .pos = 0 };
+        struct ssnk kd = { .n = 0 };
+        size_t len; unsigned char *stream = parse_hex(argv[3], &len);
+        if (!stream || !parse_script(argv[4], &sd.sc) || !parse_script(argv[6], &kd.sc)) { printf("bad-op"); return; }
+        sd.stream = stream; sd.len = len;
+        Source src; mk_source(&src, argv[2], &sd);
+        Sink snk; mk_sink(&snk, argv[5], &kd);
+        size_t n = parse_u64(argv[7]), asize = parse_u64(argv[8]), aused = parse_u64(argv[9]), aoff = parse_u64(argv[10]);
+        unsigned char *amem = malloc(asize ? asize : 1);
+        memset(amem, 0xee, asize ? asize : 1);
+        ByteBuffer aux = { .data = amem, .size = asize, .used = aused, .offset = aoff };
+        const char *fn = argv[1];
+        ssize_t rc;
+        bool rewound = false;
+        if (strcmp(fn, "cbc") == 0) rc = sts_cbc(&src, &snk);
+        else if (strcmp(fn, "n_cbc") == 0) rc = sts_n_cbc(&src, &snk, n);
+        else if (strcmp(fn, "drain_cbc") == 0) rc = sts_drain_cbc(&src, &snk);
+        else if (strcmp(fn, "n") == 0) rc = sts_n(&src, &snk, n);
+        else if (strcmp(fn, "drain") == 0) rc = sts_drain(&src, &snk);
+        else if (strcmp(fn, "some_aux") == 0) rc = sts_some_aux(&src, &snk, &aux);
+        else if (strcmp(fn, "atmost_aux") == 0) rc = sts_atmost_aux(&src, &snk, &aux, n);
+        else if (strcmp(fn, "n_aux") == 0) { rc = sts_n_aux(&src, &snk, &aux, n); rewound = true; }
+        else if (strcmp(fn, "drain_aux") == 0) { rc = sts_drain_aux(&src, &snk, &aux); rewound = true; }
+        else { printf("bad-op"); return; }
+        bool clean = true;
+        for (size_t i = 0; i < asize; i++) {
+            bool inside = (aoff <= i && i < aused) || (rewound && aused >= aoff && i < aused - aoff);
+            if (!inside && amem[i] != 0xee) clean = false;
+        }
+        print_rc_strict(rc);
+        printf(" got="); print_hex(kd.got, kd.n);
+        printf(" consumed=%zu ## ", sd.pos);
+        print_rc_strict(rc);
+        printf(" prefix=%s auxclean=%s", is_prefix(kd.got, kd.n, stream, len) ? "true" : "false", clean ? "true" : "false");
+        free(amem); free(kd.got); free(stream);
+    } else {
+        printf("bad-op");
+    }
+}
+
 static void
 harness_reset(void)
 {
@@ -243,6 +439,7 @@ static void
 harness_op(int argc, char **argv)
 {
     if (strncmp(argv[0], "slip.", 5) == 0) slip_op(argc, argv);
+    else if (strncmp(argv[0], "ep.", 3) == 0 || strcmp(argv[0], "sts") == 0) ep_op(argc, argv);
     else printf("bad-op");
 }
 
